@@ -307,6 +307,12 @@ class Goebner:
             sign = ast.sign
             atom = ast.atom
             ret: Optional[list[Expr]]
+            # every anonymous variable is a variable of its own, as symbols they would all be the same
+            guards = [g for g in (getattr(atom, "left_guard", None), getattr(atom, "right_guard", None)) if g is not None]
+            if atom.ast_type == ASTType.Comparison:
+                guards = [atom.term] + list(atom.guards)
+            if any(var.name == "_" for g in guards for var in collect_ast(g, "Variable")):
+                return None
             if atom.ast_type == ASTType.Comparison:
                 c = (atom.term, atom.guards[0].comparison, atom.guards[0].term)
                 rel = self._to_sympy_comparison(c, sign == Sign.Negation)
